@@ -7,6 +7,14 @@ import (
 	"runtime"
 	"strings"
 
+	// every package of the module that imports tex or a JSON library is linked in, so that whatever they register at
+	// init (global jsoniter codecs, encoders keyed by type name, …) is in force while the wrappers are exercised
+	_ "github.com/pinealctx/neptune/dl"
+	_ "github.com/pinealctx/neptune/idgen/snowflake"
+	_ "github.com/pinealctx/neptune/jsonx"
+	_ "github.com/pinealctx/neptune/mpb"
+	_ "github.com/pinealctx/neptune/vcode"
+
 	"nvharness/lib/corr"
 	_ "nvharness/lib/quiet"
 	"nvharness/lib/rng"
